@@ -158,7 +158,8 @@ func (o *onode) text(form string) string {
 }
 
 // shape is the document's shape class for signatures: kind of the root,
-// nesting depth and whether some container holds more than one member.
+// flat (members are leaves) or nested, and whether some container holds more
+// than one member.
 func (o *onode) shape() string {
 	depth, wide := 0, false
 	var walk func(n *onode, d int)
@@ -181,11 +182,14 @@ func (o *onode) shape() string {
 	if len(o.kids) == 0 {
 		return kind + ":empty"
 	}
-	w := "w1"
+	w, n := "w1", "flat"
 	if wide {
 		w = "w2+"
 	}
-	return kind + ":d" + strconv.Itoa(depth) + ":" + w
+	if depth > 1 {
+		n = "nested"
+	}
+	return kind + ":" + n + ":" + w
 }
 
 // ------------------------------------------------------------------ the harness' own scanner
@@ -441,7 +445,8 @@ type docInfo struct {
 	byLoc    map[string]*nodeInfo
 	byPos    map[string]*nodeInfo
 	multiKey bool // holds an object with two or more members
-	execs    map[string][]execSpec
+	execs    map[int][]execItem
+	data     []byte // the text as bytes (shared by the executions, never written by the harness)
 }
 
 func locKey(loc pathref.Loc) string {
@@ -491,7 +496,7 @@ func newDoc(form, text string, ord *onode) (d *docInfo, err error) {
 	if !valEq(parsed, ord.plain()) {
 		return nil, fmt.Errorf("%s parse of %s gives %s, the harness scanner %s", form, text, show(parsed), show(ord.plain()))
 	}
-	d = &docInfo{form: form, text: text, ord: ord, parsed: parsed, byLoc: map[string]*nodeInfo{}, byPos: map[string]*nodeInfo{}}
+	d = &docInfo{form: form, text: text, data: []byte(text), ord: ord, parsed: parsed, byLoc: map[string]*nodeInfo{}, byPos: map[string]*nodeInfo{}}
 	var walk func(o *onode, v any, pos []byte, loc pathref.Loc)
 	walk = func(o *onode, v any, pos []byte, loc pathref.Loc) {
 		ni := &nodeInfo{pos: string(pos), loc: append(pathref.Loc{}, loc...), val: v}
